@@ -8,8 +8,8 @@ script and must make exactly the same calls and produce the same commands / chil
 from lib.coqterm import cbool, cnat, cN, clist, copt
 
 ID = "C14"
-QUICK_N = 300
-THOROUGH_N = 4000
+QUICK_N = 200
+THOROUGH_N = 3000
 SHARD = 25
 CASE_TYPE = "case"
 COQ_PRELUDE = "From MV Require Import Model.TlsTunnel.\n"
@@ -931,7 +931,9 @@ def _child_view(case, obs):
     v = {}
     for s in obs["final"]:
         data, closes, after = bytearray(), 0, False
-        for e in obs["clog"]:
+        # the child of the ServerTLSLayer of a stack is the ClientTLSLayer: its input is in the trace
+        evs = [t[1:] for t in obs["trace"] if t[0] == "child"] if (case["mode"] == "stack" and s == "s") else obs["clog"]
+        for e in evs:
             if e[0] == "data" and e[1] == s:
                 data += bytes.fromhex(e[2])
                 if closes:
